@@ -5,6 +5,7 @@ import RactorModel.Lemmas.FactorySlotInst
 import RactorModel.Lemmas.FactoryActors
 import RactorModel.Lemmas.FactoryNoPanic
 import RactorModel.Lemmas.FactoryNoBacklog
+import RactorModel.Lemmas.FactoryKeyOrder
 
 /-!
 # C14 — Factory routing keeps its promises about where a job runs
@@ -430,6 +431,68 @@ example : ((init f3Case).runSteps (f3Steps.take 3)).queue.length = 2 ∧ ((init 
     ((init f3Case).runSteps (f3Steps.take 4)).queue.length = 0 ∧ ((init f3Case).runSteps (f3Steps.take 4)).poolSize = 1 := by
   decide +kernel
 
+/-! ## Jobs of one key are handed to the workers in submission order -/
+
+/-- (order along the pipeline) For every worker-queueing router (key-persistent, round-robin, custom), every
+configuration and EVERY sequence of operations in which the submitter numbers its jobs in increasing order
+(`idsIncreasing`; "same key ⇒ smaller id" = "submitted earlier", `KO`): at every quiescent point, jobs of the same key
+are in submission order
+* inside the factory's mailbox, inside the factory queue (arrival order) and inside every worker's own queue, and
+* ACROSS them: every job in a worker's queue is older than every same-key job in the factory queue or still in the
+  factory's mailbox, and every job in the factory queue is older than every same-key job in the mailbox —
+across TTL expiry, load shedding in both modes, rate limiting, worker failures and replacement, pool growth (the
+F3 flush) and shrinkage, drain and a factory held busy. (`Lemmas/FactoryKeyOrder.lean`; freshness of a new id comes
+from `C13.conservation`: a job id that was never submitted is nowhere.) -/
+theorem key_order_pipeline (c : CaseCfg) (hq : isFactoryQueueing c.cfg.router = false) (steps : List Step)
+    (hinc : idsIncreasing steps) :
+    let w := (init c).runSteps steps
+    (inboxJobs w.inbox).Pairwise KO ∧ w.queue.Pairwise KO ∧ (∀ p ∈ w.pool, p.mq.Pairwise KO) ∧
+    (∀ x ∈ w.queue, ∀ y ∈ inboxJobs w.inbox, KO x y) ∧
+    (∀ p ∈ w.pool, ∀ x ∈ p.mq, (∀ y ∈ w.queue, KO x y) ∧ (∀ y ∈ inboxJobs w.inbox, KO x y)) := by
+  intro w
+  have h := ki_always c hq steps hinc
+  exact ⟨h.i, h.k.ord.q, h.k.ord.m, h.k.ord.qi,
+    fun p hp x hx => ⟨h.k.ord.mq p hp x hx, h.k.ord.mi p hp x hx⟩⟩
+
+/-- (no overtaking, key-persistent) With key-persistent routing the job at the head of a worker's queue — the next
+one `worker_complete` / `replace_worker` hands to the worker — is the OLDEST waiting job of its key in the whole
+factory: no job of that key waits anywhere else with a smaller id (not further back in this queue, not in another
+worker's queue — affinity —, not in the factory queue, not in the factory's mailbox). With
+`C13.worker_dequeue_skips_expired` (the hand-over takes the first non-expired job from the head, everything it skips
+is discarded) and `worker_one_job_at_a_time_partial` this is "jobs of one key are handled in submission order". -/
+theorem kp_next_job_is_oldest_of_its_key (c : CaseCfg) (hr : c.cfg.router = .kp) (steps : List Step)
+    (hinc : idsIncreasing steps) :
+    let w := (init c).runSteps steps
+    ∀ p ∈ w.pool, ∀ x rest, p.mq = x :: rest → ∀ y ∈ waiting w, y.key = x.key → x.id ≤ y.id := by
+  intro w p hp x rest hmq y hy hk
+  have hq : isFactoryQueueing c.cfg.router = false := by rw [hr]; rfl
+  have h := ki_always c hq steps hinc
+  have hxm : x ∈ p.mq := by rw [hmq]; exact List.mem_cons_self ..
+  unfold waiting at hy
+  rcases List.mem_append.mp hy with hy | hy
+  · rcases List.mem_append.mp hy with hy | hy
+    · exact Nat.le_of_lt (h.k.ord.mi p hp x hxm y hy hk.symm)
+    · exact Nat.le_of_lt (h.k.ord.mq p hp x hxm y hy hk.symm)
+  · obtain ⟨p', hp', hy'⟩ := List.mem_flatMap.mp hy
+    -- affinity: all queued jobs of a key sit in one worker's queue
+    have hpp : p = p' := by
+      apply affinity_jobs_partial c hr steps x.key p p' hp hp'
+      · exact List.mem_append_right _ (List.mem_map.mpr ⟨x, hxm, rfl⟩)
+      · exact List.mem_append_right _ (List.mem_map.mpr ⟨y, hy', hk⟩)
+    subst hpp
+    rw [hmq] at hy'
+    rcases List.mem_cons.mp hy' with hy' | hy'
+    · rw [hy']; exact Nat.le_refl _
+    · have hpw := h.k.ord.m p hp
+      rw [hmq] at hpw
+      exact Nat.le_of_lt ((List.pairwise_cons.mp hpw).1 y hy' hk.symm)
+
+/-- non-vacuity: the F3 witness numbers its jobs 1, 2, 3 and leaves jobs 2 and 3 (key 7) in worker 0's queue, in order -/
+example : ((init f3Case).runSteps (f3Steps.take 5)).pool.map (fun p => p.mq.map (·.id)) = [[2, 3]] := by decide +kernel
+example : idsIncreasing f3Steps := by
+  unfold idsIncreasing f3Steps
+  simp [Step.dispatchId]
+
 /-! ### Non-vacuity -/
 def qCase : CaseCfg :=
   { cfg := { router := .q, prioQueue := false, hasHandler := true, table := [], hasCC := false }, n := 1, disc := none, rl := none }
@@ -485,5 +548,7 @@ end C14
 #print axioms C14.queue_peek_is_pop
 #print axioms C14.worker_router_never_backlogs
 #print axioms C14.worker_router_always_has_target
+#print axioms C14.key_order_pipeline
+#print axioms C14.kp_next_job_is_oldest_of_its_key
 #print axioms C14.busy_worker_starts_nothing
 #print axioms C14.cast_to_busy_queues
